@@ -92,7 +92,7 @@ theorem removeNodes_perm (g : Graph N) {a b : List N} (h : a.Perm b) : g.removeN
   removeNodes_congr g (fun _ => h.mem_iff)
 
 theorem removeNodes_nil (g : Graph N) : g.removeNodes [] = g := by
-  simp [Graph.removeNodes]
+  cases g; simp [Graph.removeNodes]
 
 /-- removing the nodes of a list one by one = removing them all at once -/
 theorem foldl_removeNodes (ps : List N) (g : Graph N) :
@@ -197,7 +197,7 @@ theorem sameRun {ord : List N → List N} (hord : ∀ l, (ord l).Perm l) (in0 ou
       | some p =>
         obtain ⟨p', hp'⟩ := find?_perm_some (hord (deadEnds out0 g)) hf
         have hany : (deadEnds out0 g).any (fun u => decide (u ∈ in0)) = true :=
-          List.any_eq_true.2 ⟨p, List.mem_of_find?_eq_some hf, List.find?_some hf⟩
+          List.any_eq_true.2 ⟨p, List.mem_of_find?_eq_some hf, List.find?_some (p := fun u => decide (u ∈ in0)) hf⟩
         simp only [hp', hany, if_true]
         exact .err p' p (deadInputAt_of_find? (hord _) hp') (deadInputAt_of_find? (List.Perm.refl _) hf)
       | none =>
@@ -227,7 +227,7 @@ theorem prepareP_agree {ord : List N → List N} (hord : ∀ l, (ord l).Perm l) 
     generalize chkTerminalsP ord g.inPorts g.outPorts _ _ = x at h
     generalize chkTerminals g.inPorts g.outPorts _ _ = y at h
     cases h with
-    | ok => exact Agree.refl (fun _ => rfl) _
+    | ok => exact Agree.refl (R := SameCls) (fun _ => rfl) _
     | err p p' _ _ => exact rfl
   · simp only [hac, Bool.not_false, if_true]
     exact rfl
@@ -238,13 +238,14 @@ theorem loadP_agree [LT N] [DecidableRel (α := N) (· < ·)] {ord : List N → 
   cases createGraph fold d with
   | error e => exact rfl
   | ok gr =>
+    dsimp only
     have h := prepareP_agree hord gr.1
     generalize prepareP ord gr.1 = x at h
     generalize prepare gr.1 = y at h
     cases x with
     | ok a =>
       cases y with
-      | ok b => cases h; exact Agree.refl (fun _ => rfl) _
+      | ok b => cases h; exact Agree.refl (R := SameCls) (fun _ => rfl) _
       | error e => exact h.elim
     | error e =>
       cases y with
